@@ -1,6 +1,7 @@
 from __future__ import annotations
 
 import inspect
+import math
 from abc import ABC, abstractmethod
 from collections.abc import Callable, Iterable, Sequence
 from dataclasses import dataclass
@@ -452,13 +453,21 @@ class BlochSphereRotation(Gate):
         if self.qubit != other.qubit:
             return False
 
-        if abs(self.phase - other.phase) > ATOL:
-            return False
+        same_phase = abs(self.phase - other.phase) <= ATOL
+
+        if abs(self.angle) < ATOL and abs(other.angle) < ATOL:
+            # Both are the identity rotation, whatever their axes.
+            return same_phase
 
         if np.allclose(self.axis, other.axis):
-            return abs(self.angle - other.angle) < ATOL
+            return same_phase and abs(self.angle - other.angle) < ATOL
         if np.allclose(self.axis, -other.axis.value):
-            return abs(self.angle + other.angle) < ATOL
+            if same_phase and abs(self.angle + other.angle) < ATOL:
+                return True
+            # A half turn about -n is minus the half turn about n: the phases then differ by pi.
+            opposite_phase = abs(abs(self.phase - other.phase) - math.pi) <= ATOL
+            both_half_turns = abs(abs(self.angle) - math.pi) < ATOL and abs(abs(other.angle) - math.pi) < ATOL
+            return opposite_phase and both_half_turns
         return False
 
     def accept(self, visitor: IRVisitor) -> Any:
